@@ -1,5 +1,28 @@
 //! One `#[kani::proof]` per scenario: all inputs of length 0..=N (N from the scenario table).
 use crate::scenarios::*;
+extern crate alloc;
+
+/// `format!` on error paths dominates CBMC time; error message text is irrelevant to every clause
+pub fn fake_format(_args: core::fmt::Arguments<'_>) -> String {
+    String::new()
+}
+
+macro_rules! hs {
+    ($h:ident, $sc:ident, $n:expr, $unwind:expr) => {
+        #[kani::proof]
+        #[kani::unwind($unwind)]
+        #[kani::stub(alloc::fmt::format, fake_format)]
+        fn $h() {
+            let a: [u8; $n] = kani::any();
+            let len: usize = kani::any();
+            kani::assume(len <= $n);
+            let code = $sc(&a[..len]);
+            kani::cover!(len == $n && code == 0);
+            assert!(code == 0);
+        }
+    };
+}
+
 
 macro_rules! h {
     ($h:ident, $sc:ident, $n:expr, $unwind:expr) => {
@@ -47,3 +70,7 @@ h!(h_tuple2_bytes, sc_tuple2_bytes, 2, 42);
 h!(h_iter_count, sc_iter_count, 8, 42);
 h!(h_iter_unknown, sc_iter_unknown, 2, 42);
 h!(h_var_read_owned, sc_var_read_owned, 6, 20);
+hs!(h_arr_u16x2, sc_arr_u16x2, 8, 12);
+h!(h_arr_u8x4, sc_arr_u8x4, 6, 12);
+hs!(h_vec_u16, sc_vec_u16, 5, 12);
+
